@@ -1432,10 +1432,12 @@ func (x *Exec) errFromConcrete(st *State, v Val, from types.Type) Val {
 			switch {
 			case f.Name() == "Err" && isErrorType(f.Type()):
 				inner := sv.F[i].(ErrVal)
-				for k, t := range inner.Is {
+				for _, k := range sortedTermKeys(inner.Is) {
+					t := inner.Is[k]
 					ev.Is[k] = o.And(o.Not(inner.Nil), t)
 				}
-				for k, t := range inner.As {
+				for _, k := range sortedTermKeys(inner.As) {
+					t := inner.As[k]
 					if _, dup := ev.As[k]; !dup {
 						ev.As[k] = o.And(o.Not(inner.Nil), t)
 					}
